@@ -14,14 +14,31 @@ from .ops import truth, eq_value, arith, raise_py, norm_num
 
 
 class AArr:
-    def __init__(self, shape, data, dtype=None):
+    """Concrete-shape array.  Basic indexing (integers and slices) yields a *view* that shares the buffer with its base,
+    as in numpy (`Q[i][j] = v` writes into Q); advanced indexing and every arithmetic result are copies."""
+
+    def __init__(self, shape, data, dtype=None, buf=None, pos=None):
         self.shape = tuple(shape)
-        self.data = list(data)        # row-major
         self.dtype = dtype
+        if buf is None:
+            self._buf = list(data)
+            self._pos = None
+        else:
+            self._buf = buf
+            self._pos = list(pos)
         n = 1
         for s in self.shape:
             n *= s
-        assert n == len(self.data), (shape, len(self.data))
+        assert n == (len(self._buf) if self._pos is None else len(self._pos)), (shape, n)
+
+    @property
+    def data(self):
+        if self._pos is None:
+            return self._buf
+        return [self._buf[p] for p in self._pos]
+
+    def _abs(self, k):
+        return k if self._pos is None else self._pos[k]
 
     @property
     def ndim(self):
@@ -48,11 +65,11 @@ class AArr:
 
     # --- indexing -----------------------------------------------------------------------
     def _axis_index(self, I, idx, n):
-        """-> ('int', i) | ('list', [i...])"""
+        """-> ('int', i) | ('slice', [i...]) | ('list', [i...])"""
         idx = force(idx)
         if isinstance(idx, slice):
             s = slice(*(None if x is None else I._conc_index(x) for x in (idx.start, idx.stop, idx.step)))
-            return ('list', list(range(n))[s])
+            return ('slice', list(range(n))[s])
         if isinstance(idx, (list, tuple)):
             return ('list', [self._norm(I._conc_index(i), n) for i in idx])
         if isinstance(idx, AArr):
@@ -78,8 +95,9 @@ class AArr:
         if len(idx) > self.ndim:
             raise_py('IndexError', 'too many indices for array')
         axes = [self._axis_index(I, ix, n) for ix, n in zip(idx, self.shape)]
-        axes += [('list', list(range(n))) for n in self.shape[len(idx):]]
-        out_shape = tuple(len(a[1]) for a in axes if a[0] == 'list')
+        axes += [('slice', list(range(n))) for n in self.shape[len(idx):]]
+        out_shape = tuple(len(a[1]) for a in axes if a[0] != 'int')
+        self._last_basic = all(a[0] != 'list' for a in axes)
         choices = [[a[1]] if a[0] == 'int' else a[1] for a in axes]
         strides = []
         s = 1
@@ -93,7 +111,10 @@ class AArr:
         shape, pos = self._select(I, idx)
         if shape == ():
             return self.data[pos[0]]
-        return AArr(shape, [self.data[p] for p in pos], self.dtype)
+        if self._last_basic:
+            return AArr(shape, None, self.dtype, buf=self._buf, pos=[self._abs(p) for p in pos])
+        d = self.data
+        return AArr(shape, [d[p] for p in pos], self.dtype)
 
     def setitem(self, I, idx, v):
         shape, pos = self._select(I, idx)
@@ -113,7 +134,7 @@ class AArr:
         else:
             vals = [v] * len(pos)
         for p, x in zip(pos, vals):
-            self.data[p] = self._coerce(x)
+            self._buf[self._abs(p)] = self._coerce(x)
 
     def _coerce(self, x):
         x = force(x)
@@ -445,43 +466,67 @@ def _where(cond):
     return (AArr((len(sel),), sel, 'int'),)
 
 
+def _is_zero_entry(x):
+    x = force(x)
+    return is_concrete_num(x) and x == 0
+
+
 def det(a):
+    """Laplace expansion along the row or column with the most (syntactically) zero entries; zero entries are skipped."""
     a = as_array(a)
     n = a.shape[0]
     if n == 0:
         return 1.0
+    d = a.data
     if n == 1:
-        return a.data[0]
+        return d[0]
+    if n == 2:
+        return arith('-', arith('*', d[0], d[3]), arith('*', d[1], d[2]))
+    best, best_zeros = ('row', 0), -1
+    for i in range(n):
+        z = sum(1 for j in range(n) if _is_zero_entry(d[i * n + j]))
+        if z > best_zeros:
+            best, best_zeros = ('row', i), z
+        z = sum(1 for j in range(n) if _is_zero_entry(d[j * n + i]))
+        if z > best_zeros:
+            best, best_zeros = ('col', i), z
+    kind, k = best
     total = 0.0
-    for j in range(n):
-        minor = AArr((n - 1, n - 1), [a.data[i * n + k] for i in range(1, n) for k in range(n) if k != j])
-        term = arith('*', a.data[j], det(minor))
-        total = arith('+', total, term) if j % 2 == 0 else arith('-', total, term)
+    for t in range(n):
+        i, j = (k, t) if kind == 'row' else (t, k)
+        x = d[i * n + j]
+        if _is_zero_entry(x):
+            continue
+        minor = AArr((n - 1, n - 1), [d[r * n + c] for r in range(n) if r != i for c in range(n) if c != j])
+        term = arith('*', x, det(minor))
+        total = arith('+', total, term) if (i + j) % 2 == 0 else arith('-', total, term)
     return total
 
 
 def _solve(A, b):
-    """Assumed contract: A square nonsingular -> the x with A x = b; singular -> LinAlgError."""
+    """Assumed contract: A square nonsingular -> the x with A x = b; singular -> LinAlgError.
+
+    The unique solution is written out by Cramer's rule (x_i = det A_i / det A), so no unknowns are introduced."""
     A, b = as_array(A), as_array(b)
     if A.ndim != 2 or A.shape[0] != A.shape[1]:
         raise_py('LinAlgError', 'Last 2 dimensions of the array must be square')
     n = A.shape[0]
     if b.shape[0] != n:
         raise_py('ValueError', 'solve: shape mismatch')
-    if n > 4:
-        raise OutOfSubset('solve with concrete dimension > 4')
+    if n > 7:
+        raise OutOfSubset('solve with concrete dimension > 7')
+    if n == 0:
+        return AArr(b.shape, [])
     d = det(A)
     if truth(eq_value(d, 0)):
         raise_py('LinAlgError', 'Singular matrix')
     cols = 1 if b.ndim == 1 else b.shape[1]
-    xs = [fresh_complex('x', np=True) for _ in range(n * cols)]
-    for i in range(n):
-        for c in range(cols):
-            acc = 0.0
-            for k in range(n):
-                acc = arith('+', acc, arith('*', A.data[i * n + k], xs[k * cols + c]))
-            e = eq_value(acc, b.data[i * cols + c] if b.ndim == 2 else b.data[i])
-            CTX.path.assume(ops.zbool(e) if not isinstance(e, bool) else e)
+    xs = [None] * (n * cols)
+    for c in range(cols):
+        col = [b.data[i * cols + c] if b.ndim == 2 else b.data[i] for i in range(n)]
+        for k in range(n):
+            Ak = AArr((n, n), [col[i] if j == k else A.data[i * n + j] for i in range(n) for j in range(n)])
+            xs[k * cols + c] = _np_scalar_arith('/', det(Ak), d)
     return AArr(b.shape, xs)
 
 
